@@ -656,6 +656,7 @@ pub fn preprocess_str<T: AsRef<Path>, U: AsRef<Path>, V: BuildHasher>(
                             ignore_include,
                             strip_comments,
                             resolve_depth + 1,
+                            include_depth,
                         )? {
                             let p = p.trim().trim_matches('"');
                             PathBuf::from(p)
@@ -716,6 +717,7 @@ pub fn preprocess_str<T: AsRef<Path>, U: AsRef<Path>, V: BuildHasher>(
                     ignore_include,
                     strip_comments,
                     resolve_depth + 1,
+                    include_depth,
                 )? {
                     ret.push(&text, origin);
                     defines = new_defines;
@@ -917,6 +919,7 @@ fn resolve_text_macro_usage<T: AsRef<Path>, U: AsRef<Path>>(
     ignore_include: bool,
     strip_comments: bool,
     resolve_depth: usize,
+    include_depth: usize,
 ) -> Result<Option<(String, Option<(PathBuf, Range)>, Defines)>, Error> {
     let (_, ref name, ref args) = x.nodes;
     let id = identifier((&name.nodes.0).into(), &s).unwrap();
@@ -1012,7 +1015,7 @@ fn resolve_text_macro_usage<T: AsRef<Path>, U: AsRef<Path>>(
                 ignore_include,
                 strip_comments,
                 resolve_depth,
-                0, // include_depth
+                include_depth,
             )?;
             Ok(Some((
                 String::from(replaced.text()),
